@@ -1441,8 +1441,69 @@ class Ev(object):
             out += self.call(m, args, kw, s1, site)
         return out
 
+    @staticmethod
+    def _struct_fields(fmt):
+        """struct format made of byte fields only ('c' and '<n>s', n a constant or a %d argument) -> [(kind, width term)]"""
+        import re
+        if isinstance(fmt, Const) and isinstance(fmt.v, str):
+            text, extra = fmt.v, []
+        elif is_app(fmt, "fmt") and fmt.args and isinstance(fmt.args[0], Const) and isinstance(fmt.args[0].v, str):
+            text, extra = fmt.args[0].v, list(fmt.args[1:])
+            if len(extra) == 1 and isinstance(extra[0], TupleV):
+                extra = list(extra[0].items)
+        else:
+            return None
+        m = re.match(r"^[@=<>!]?((?:c|%ds|[0-9]+s)+)$", text)
+        if not m:
+            return None
+        out = []
+        for tok in re.findall(r"c|%ds|[0-9]+s", m.group(1)):
+            if tok == "c":
+                out.append(("c", Const(1)))
+            elif tok == "%ds":
+                if not extra:
+                    return None
+                out.append(("s", extra.pop(0)))
+            else:
+                out.append(("s", Const(int(tok[:-1]))))
+        return None if extra else out
+
     def _call_opaque_method(self, recv, name, args, kw, st, site):
         args = tuple(self.take(a, st) for a in args)
+        if is_app(recv, "struct.Struct") and len(recv.args) == 1 and not kw and name in ("pack", "unpack", "unpack_from"):
+            # struct.Struct over byte fields only: pack concatenates (an 's' field pads / truncates to its width), unpack needs
+            # exactly the total size, unpack_from at least the total size - and ignores what follows
+            fields = self._struct_fields(recv.args[0])
+            if fields is not None:
+                if name == "pack" and len(args) == len(fields):
+                    parts = []
+                    for (kind, w), a in zip(fields, args):
+                        exact = kind == "c" or mk_app("len", (a,)) == w
+                        if not exact and is_app(a, ".to_bytes") and len(a.args) == 1 and is_app(w, "getattr") and len(w.args) == 2 \
+                                and w.args[1] == Const("element_size_bytes"):
+                            exact = True    # group interface: to_bytes() of an element is exactly element_size_bytes long (C15 K3/K5 widths)
+                        parts.append(a if exact else mk_app("structfit", (a, w)))
+                    return [Outcome("return", mk_app("cat", tuple(parts)), st)]
+                if name in ("unpack", "unpack_from") and len(args) == 1:
+                    buf = args[0]
+                    total = Const(0)
+                    for _, w in fields:
+                        total = mk_app("Add", (total, w))
+                    ln = mk_app("len", (buf,))
+                    test = mk_app("Eq", (ln, total)) if name == "unpack" else mk_app("LtE", (total, ln))
+                    out = []
+                    for s1, b in self.branch(test, st, site):
+                        if not b:
+                            self.do_raise(s1, "error", site)          # struct.error
+                            continue
+                        items, pos = [], Const(0)
+                        for i, (_, w) in enumerate(fields):
+                            end = mk_app("Add", (pos, w))
+                            last = i == len(fields) - 1 and name == "unpack"
+                            items.append(mk_app("slice", (buf, pos if pos != Const(0) else NONE, NONE if last else end, NONE)))
+                            pos = end
+                        out.append(Outcome("return", TupleV(items), s1))
+                    return out
         if name in ("startswith", "endswith", "removeprefix", "removesuffix") and len(args) == 1 and not kw \
                 and isinstance(args[0], Const) and isinstance(args[0].v, (bytes, str)) and ty_of(recv) in ("bytes", "str") \
                 and not isinstance(recv, Const):
